@@ -89,6 +89,8 @@ def write_contract(h):
     """Either nothing is written (not connected / unencodable) or exactly the three parts of this
     message's frame are handed to the current writer back-to-back in one atomic segment."""
     if not h.symbolic:
+        from replay import more_scenarios as M
+        M.oblige_from(h, [M.write_scenarios])
         return
     W = SockWorld(h)
     sock = W.make_socket()
@@ -282,6 +284,8 @@ def _install_notify(W, label="_notify_connection_changed"):
 @oset("socket._disconnect", ["C07", "C15"], [F_DISC])
 def disconnect_contract(h):
     if not h.symbolic:
+        from replay import more_scenarios as M
+        M.oblige_from(h, [M.disconnect_reset_scenarios], {"J1 holds at every suspension point: is_connected <=> a reader and a writer are present", "the connection held at entry is closed before anything else can run", "subscribers are told connected=False exactly once"})
         return
     W = SockWorld(h)
     sock = W.make_socket()
@@ -304,6 +308,8 @@ def disconnect_contract(h):
 @oset("socket.reset_connection", ["C07", "C06", "C08"], [F_RESET])
 def reset_contract(h):
     if not h.symbolic:
+        from replay import more_scenarios as M
+        M.oblige_from(h, [M.disconnect_reset_scenarios], {"the connect attempt is scheduled after the disconnect completed", "then schedules exactly one immediate connect attempt"})
         return
     W = SockWorld(h)
     sock = W.make_socket()
@@ -322,6 +328,8 @@ def reset_contract(h):
 @oset("socket.close", ["C15", "C16"], [F_CLOSE])
 def close_contract(h):
     if not h.symbolic:
+        from replay import more_scenarios as M
+        M.oblige_from(h, [M.close_scenarios], {"close lets no exception out", "afterwards the socket is not open", "close schedules nothing", "an open socket is disconnected by close"})
         return
     W = SockWorld(h)
     sock = W.make_socket()
@@ -504,6 +512,8 @@ def read_one_contract(h):
 def read_contract(h):
     """One arbitrary iteration of the read loop and every exit."""
     if not h.symbolic:
+        from replay import more_scenarios as M
+        M.oblige_from(h, [M.read_delivery_order_scenario])
         return
     W = SockWorld(h)
     sock = W.make_socket(connected=True)
@@ -558,6 +568,8 @@ def read_contract(h):
 def read_failures(h):
     """Every way a frame can fail is followed by a connection reset (except EOF on a writer that is already closing)."""
     if not h.symbolic:
+        from replay import more_scenarios as M
+        M.oblige_from(h, [M.read_failure_scenarios])
         return
     kind = h.choice("failure", ["none-result", "IncompleteReadError", "OSError", "ConnectionResetError", "ValueError",
                                 "StructError", "IndexError", "UnicodeDecodeError"])
